@@ -7,7 +7,7 @@ use flac_codec::encode::{FlacStreamWriter, Options};
 use serde_json::{json, Value};
 use vph::refdec;
 
-pub const RULE: &str = "every case of the C01 space (a)-(j) (incl. all four writer front-ends and both byte orders) is encoded by the real crate and the finished bytes are judged by the independent strict validator (sync, reserved bits/codes, coded numbers, header/STREAMINFO consistency, CRC-8/16, zero padding, wasted-bit/predictor/partition/residual rules with UNTRUNCATED prediction, frame numbering, block sizes, sample count, MD5, frame-size extrema, no trailing bytes) and the independent decode must equal the input PCM; plus FlacStreamWriter output for all frame sequences of 1..2 frames × all PCM over Σ up to 3 PCM frames × channels 1..3 × subset depths with parameters changing between frames, and every FlacStreamWriter call history of 3 valid frames with ≤2 rejected calls (9 kinds: unsupported depth/rate, too many samples, odd sample count, empty slice, bad channel count) inserted at every position; plus write-call histories on 40-PCM-frame inputs (2.5 blocks; stereo 16-bit, mono 8-bit, 3-channel 20-bit) × 4 writers × declared/undeclared × every ≤2-cut history (byte writers in quick: a fixed 1/3 sub-lattice of the 2-cut pairs) × {plain, flush() after every call, dropped instead of finalized}; distinct outcomes = (set, verdict, subframe kinds, channel code, partition orders)";
+pub const RULE: &str = "every case of the C01 space (a)-(l) (incl. all four writer front-ends and both byte orders) is encoded by the real crate and the finished bytes are judged by the independent strict validator (sync, reserved bits/codes, coded numbers, header/STREAMINFO consistency, CRC-8/16, zero padding, wasted-bit/predictor/partition/residual rules with UNTRUNCATED prediction, frame numbering, block sizes, sample count, MD5, frame-size extrema, no trailing bytes) and the independent decode must equal the input PCM; plus FlacStreamWriter output for all frame sequences of 1..2 frames × all PCM over Σ up to 3 PCM frames × channels 1..3 × subset depths with parameters changing between frames, and every FlacStreamWriter call history of 3 valid frames with ≤2 rejected calls (9 kinds: unsupported depth/rate, too many samples, odd sample count, empty slice, bad channel count) inserted at every position; plus write-call histories on 40-PCM-frame inputs (2.5 blocks; stereo 16-bit, mono 8-bit, 3-channel 20-bit) × 4 writers × declared/undeclared × every ≤2-cut history (byte writers in quick: a fixed 1/3 sub-lattice of the 2-cut pairs) × {plain, flush() after every call, dropped instead of finalized}; distinct outcomes = (set, verdict, subframe kinds, channel code, partition orders)";
 pub const ASSUMPTIONS: &[&str] = &["refdec is bound to reality by decoding the libFLAC-made fixtures with matching MD5 and by inverting the independently written stream builder (selftest)", "same input bounds as C01"];
 pub fn bounds(quick: bool) -> Value {
     super::c01::bounds(quick)
@@ -92,7 +92,7 @@ fn judge_raw(bytes: &[u8], frames: &[(u32, u8, u32, Vec<i32>)]) -> Option<(Strin
 }
 
 pub fn run(ctx: &Ctx, acc: &mut Acc) {
-    enumerate(ctx, "abcdefghij", &mut |c: &EncCase| {
+    enumerate(ctx, "abcdefghijkl", &mut |c: &EncCase| {
         acc.states += 1;
         acc.executions += 1;
         acc.transitions += 2;
